@@ -1,27 +1,51 @@
-"""Minimal reproducers for the candidate findings met while building C43/C44/C45 (MJX-JAX of this tree).
+"""Probes for the known deviations of this tree's MJX-JAX (found while building C43/C44/C45).
 
-  cd /verif && PYTHONPATH=/verif /venv/bin/python -m vf.mjx_findings [F1 F3 ...]
+Each probe runs one minimal input through the tree's MJX and through the reference (the tree's C engine via ctypes,
+or - for the io.py transfer functions - the MjData it started from) and RETURNS (deviates: bool, detail: str) with an
+explicit criterion.  The checks run the probes of their property on every run and report a deviating probe through
+ck.violation(detail, case, bucket='known:mjx-Fn', fingerprint=...): listed in /verif/known_findings.json it prints
+KNOWN-FINDING, otherwise it is a VIOLATION; a probe that no longer deviates prints nothing.
 
-Each reproducer prints the value computed by the tree's C engine (ctypes build) and by the tree's MJX for the same
-XML and state, or the exception raised by MJX.  The checks exclude these sub-domains by default (C4x_FINDINGS=1
-re-enables them, the checks then exit 1).
+  cd /verif && PYTHONPATH=/verif /venv/bin/python -m vf.mjx_findings [F1 F3 ...]     # prints every probe's verdict
+
+Criterion unless stated otherwise: a compared array deviates if  max|a-b| / (1 + max(|a|,|b|)) > 1e-6  (identical
+algorithms agree to < 1e-12 in float64, see C43) or if MJX returns a non-finite value where the reference is finite.
+F14/F21 are C-engine side (kept here as printing-only reproducers, not attached to a property).
 """
 import sys
 import traceback
 
 import numpy as np
 
+RTOL = 1e-6
 
-def _setup():
+
+def setup():
   from vf import mjxload
   mujoco, mjx, jax, jp = mjxload.load()
   from vf import mj, gen_mjx as gx
   lib = mj.load('rel')
-  np.set_printoptions(precision=9, linewidth=160)
   return mujoco, mjx, jax, jp, lib, gx
 
 
-def _cmp(env, title, xml, fields, qpos=None, qvel=None, ctrl=None, act=None, mocap_pos=None, step=False, impl=()):
+def _rel(a, b):
+  a = np.asarray(a, dtype=np.float64).ravel()
+  b = np.asarray(b, dtype=np.float64).ravel()
+  if a.shape != b.shape:
+    return float('inf')
+  if a.size == 0:
+    return 0.0
+  if not (np.all(np.isfinite(a)) and np.all(np.isfinite(b))):
+    return 0.0 if np.array_equal(a, b, equal_nan=True) else float('inf')
+  return float(np.max(np.abs(a - b)) / (1.0 + max(np.max(np.abs(a)), np.max(np.abs(b)))))
+
+
+def _fmt(x):
+  return np.array2string(np.asarray(x, dtype=np.float64).ravel()[:9], precision=9, max_line_width=200)
+
+
+def _cmp(env, xml, fields, qpos=None, qvel=None, ctrl=None, act=None, mocap_pos=None, step=False, impl=()):
+  """Same XML + state through the tree C engine and MJX; deviates if any listed field differs by more than RTOL."""
   mujoco, mjx, jax, jp, lib, gx = env
   c = gx.build(lib, xml)
   tm = c.tm
@@ -38,206 +62,172 @@ def _cmp(env, title, xml, fields, qpos=None, qvel=None, ctrl=None, act=None, moc
   else:
     lib.mj_forward(tm, td)
     dx = jax.jit(mjx.forward)(c.mx, dx)
-  print('== ' + title)
+  lib.warnings()
+  dev, parts = False, []
   for f in fields:
     a = np.asarray(getattr(td, f)).ravel()
+    if f.startswith('efc_'):
+      a = a[:int(td.nefc)]
     b = np.asarray(getattr(dx._impl, f) if f in impl else getattr(dx, f)).ravel()
-    print('   %-18s C engine: %s' % (f, a[:9]))
-    print('   %-18s MJX     : %s' % (f, b[:9]))
+    if f.startswith('efc_'):
+      b = b[:a.size]
+    e = _rel(a, b)
+    if e > RTOL:
+      dev = True
+    parts.append('%s: C engine %s, MJX %s (rel diff %.3g)' % (f, _fmt(a), _fmt(b), e))
+  return dev, ('mj_step' if step else 'mj_forward') + ' vs mjx.' + ('step' if step else 'forward') + ': ' + '; '.join(parts)
 
 
-def _raises(env, title, xml, fn='forward'):
+def _raises(env, xml, fn='forward'):
+  """deviates if mjx.<fn> raises on a model that put_model / make_data accepted."""
   mujoco, mjx, jax, jp, lib, gx = env
-  print('== ' + title)
   mm = mujoco.MjModel.from_xml_string(xml)
   mx = mjx.put_model(mm)
   dx = mjx.make_data(mm)
   try:
-    jax.jit(getattr(mjx, fn))(mx, dx)
-    print('   no exception')
+    jax.block_until_ready(jax.jit(getattr(mjx, fn))(mx, dx).qpos)
   except Exception as e:
     tb = [l.strip() for l in traceback.format_exc().split('\n') if 'mjx/_src' in l]
-    print('   mjx.%s raised %s: %s   (%s)' % (fn, type(e).__name__, str(e)[:120], tb[-1] if tb else ''))
+    return True, 'mjx.%s raised %s: %s (%s) on a model accepted by put_model/make_data' % (fn, type(e).__name__, str(e)[:120], tb[-1] if tb else '')
+  return False, 'mjx.%s ran without exception' % fn
 
 
 HINGE = '<body><joint name="j" type="hinge" axis="0 1 0"%s/><geom size=".1" pos=".3 0 0"/><site name="s" pos=".3 0 0"/></body>'
+XML = {}
+
+# ------------------------------------------------------------------ C43
+
+XML['F1'] = ('<mujoco><worldbody><body name="b" pos="0 0 1"><joint type="free"/><geom size=".1"/></body></worldbody>'
+             '<equality><connect body1="b" anchor="0.3 0 0"/></equality></mujoco>')
 
 
 def F1(env):
-  _cmp(env, 'F1 connect/weld rows: C subtracts Jdot*v from efc_aref (mj_Jdotv), MJX does not',
-       '<mujoco><worldbody><body name="b" pos="0 0 1"><joint type="free"/><geom size=".1"/></body></worldbody>'
-       '<equality><connect body1="b" anchor="0.3 0 0"/></equality></mujoco>', ['efc_aref', 'qacc'],
-       qvel=[0.3, 0.2, 0.1, 2.0, 1.0, -1.5], impl=('efc_aref',))
+  return _cmp(env, XML['F1'], ['efc_aref', 'qacc'], qvel=[0.3, 0.2, 0.1, 2.0, 1.0, -1.5], impl=('efc_aref',))
+
+
+XML['F2'] = '<mujoco><option cone="elliptic"/><worldbody>' + HINGE % ' range="-30 30" limited="true"' + '</worldbody></mujoco>'
 
 
 def F2(env):
-  _raises(env, 'F2 cone=elliptic + constraint rows + no contact slot with condim>1',
-          '<mujoco><option cone="elliptic"/><worldbody>' + HINGE % ' range="-30 30" limited="true"' + '</worldbody></mujoco>')
+  return _raises(env, XML['F2'])
+
+
+XML['F3'] = ('<mujoco><worldbody>' + HINGE % '' + '</worldbody><sensor><accelerometer site="s"/>'
+             '<framelinacc objtype="site" objname="s"/></sensor></mujoco>')
 
 
 def F3(env):
-  _cmp(env, 'F3 forward() returns before sensor_acc when the model has no constraint rows',
-       '<mujoco><worldbody>' + HINGE % '' + '</worldbody><sensor><accelerometer site="s"/><framelinacc objtype="site" objname="s"/></sensor></mujoco>',
-       ['sensordata', 'qacc'], qvel=[1.0])
+  return _cmp(env, XML['F3'], ['sensordata'], qvel=[1.0])
+
+
+XML['F4'] = '<mujoco><option><flag spring="disable"/></option><worldbody>' + HINGE % ' damping="2" stiffness="3"' + '</worldbody></mujoco>'
+XML['F4b'] = ('<mujoco><option><flag damper="disable"/></option><worldbody>' + HINGE % ' damping="2" stiffness="3" springref="1"'
+              + '</worldbody></mujoco>')
 
 
 def F4(env):
-  _cmp(env, 'F4 spring disabled only: MJX zeroes the damper force too',
-       '<mujoco><option><flag spring="disable"/></option><worldbody>' + HINGE % ' damping="2" stiffness="3"' + '</worldbody></mujoco>',
-       ['qfrc_passive'], qvel=[1.0])
-  _cmp(env, 'F4 damper disabled only: MJX zeroes the spring force too',
-       '<mujoco><option><flag damper="disable"/></option><worldbody>' + HINGE % ' damping="2" stiffness="3" springref="1"' + '</worldbody></mujoco>',
-       ['qfrc_passive'], qvel=[1.0])
+  d1, t1 = _cmp(env, XML['F4'], ['qfrc_passive'], qvel=[1.0])
+  d2, t2 = _cmp(env, XML['F4b'], ['qfrc_passive'], qvel=[1.0])
+  return d1 or d2, 'spring disabled only: ' + t1 + ' | damper disabled only: ' + t2
+
+
+XML['F5'] = ('<mujoco><worldbody>' + HINGE % '' + '</worldbody><actuator><general joint="j" dyntype="integrator" gainprm="2" '
+             'actearly="true"/></actuator></mujoco>')
 
 
 def F5(env):
-  _cmp(env, 'F5 actearly ignored by MJX (accepted silently)',
-       '<mujoco><worldbody>' + HINGE % '' + '</worldbody><actuator><general joint="j" dyntype="integrator" gainprm="2" actearly="true"/></actuator></mujoco>',
-       ['actuator_force', 'qfrc_actuator'], ctrl=[1.0], act=[0.5])
+  return _cmp(env, XML['F5'], ['actuator_force', 'qfrc_actuator'], ctrl=[1.0], act=[0.5])
 
 
-def F9(env):
-  mujoco, mjx, jax, jp, lib, gx = env
-  print('== F9/F8 get_data writes static slot counts into ne/nf/nl; get_data(make_data) reports phantom contacts')
-  xml = ('<mujoco><worldbody><geom type="plane" size="1 1 .1"/><body pos="0 0 1"><joint name="j" type="hinge" range="-30 30" limited="true"/>'
-         '<geom size=".1"/></body><body pos="1 0 1"><joint name="k" type="slide" range="-1 1" limited="true"/><geom size=".1"/></body>'
-         '</worldbody><equality><joint joint1="j" joint2="k" active="false"/></equality></mujoco>')
-  mm = mujoco.MjModel.from_xml_string(xml)
-  md = mujoco.MjData(mm)
-  md.qpos[0] = 1.0
-  mujoco.mj_forward(mm, md)
-  back = mjx.get_data(mm, mjx.put_data(mm, md))
-  print('   original  : ne=%d nf=%d nl=%d nefc=%d ncon=%d' % (md.ne, md.nf, md.nl, md.nefc, md.ncon))
-  print('   round trip: ne=%d nf=%d nl=%d nefc=%d ncon=%d' % (back.ne, back.nf, back.nl, back.nefc, back.ncon))
-  fresh = mjx.get_data(mm, mjx.make_data(mm))
-  print('   get_data(make_data(m)): ncon=%d geom=%s   (MjData(m).ncon=%d)' % (fresh.ncon, fresh.contact.geom.tolist(), mujoco.MjData(mm).ncon))
-
-
-def F10(env):
-  mujoco, mjx, jax, jp, lib, gx = env
-  print('== F10 cone=elliptic: all gradients NaN as soon as a contact slot exists (contact 4 units away from active)')
-  for cone in ('pyramidal', 'elliptic'):
-    xml = ('<mujoco><option cone="%s" iterations="1" ls_iterations="4"/><worldbody><geom type="plane" size="5 5 .1" pos="0 0 -4"/>'
-           '<body pos="0 0 .5"><joint type="hinge" axis="0 1 0"/><geom size=".1" pos=".2 0 0"/></body></worldbody></mujoco>' % cone)
-    mm = mujoco.MjModel.from_xml_string(xml)
-    mx, dx = mjx.put_model(mm), mjx.make_data(mm)
-    f = lambda qvel: mjx.step(mx, dx.replace(qvel=qvel)).qvel
-    print('   %-9s value %s  jacfwd %s  jacrev %s' % (cone, np.asarray(f(jp.ones(1) * .3)), np.asarray(jax.jacfwd(f)(jp.ones(1) * .3)).ravel(),
-                                                     np.asarray(jax.jacrev(f)(jp.ones(1) * .3)).ravel()))
+XML['F11'] = ('<mujoco><option integrator="implicitfast" gravity="0 0 0"/><worldbody><body pos="0 0 1"><joint type="free"/>'
+              '<geom type="box" size=".1 .2 .3"/></body></worldbody></mujoco>')
 
 
 def F11(env):
-  _cmp(env, 'F11 implicitfast, standalone free body: C applies the gyroscopic derivative (mjd_freeMhat), MJX does not',
-       '<mujoco><option integrator="implicitfast" gravity="0 0 0"/><worldbody><body pos="0 0 1"><joint type="free"/>'
-       '<geom type="box" size=".1 .2 .3"/></body></worldbody></mujoco>', ['qvel'], qvel=[0, 0, 0, 3.0, 2.0, 1.0], step=True)
+  return _cmp(env, XML['F11'], ['qvel'], qvel=[0, 0, 0, 3.0, 2.0, 1.0], step=True)
+
+
+XML['F12'] = ('<mujoco><option integrator="implicitfast" timestep="0.008"/><worldbody><body><joint name="j" type="hinge" axis="0 1 0"/>'
+              '<geom type="capsule" size=".04 .12" density="800"/></body></worldbody><actuator><damper joint="j" kv="1.7" '
+              'ctrlrange="0 1.4"/></actuator></mujoco>')
 
 
 def F12(env):
-  _cmp(env, 'F12 implicitfast: deriv_smooth_vel uses the unclamped ctrl of a damper actuator -> M - h*qDeriv indefinite -> NaN',
-       '<mujoco><option integrator="implicitfast" timestep="0.008"/><worldbody><body><joint name="j" type="hinge" axis="0 1 0"/>'
-       '<geom type="capsule" size=".04 .12" density="800"/></body></worldbody><actuator><damper joint="j" kv="1.7" ctrlrange="0 1.4"/></actuator></mujoco>',
-       ['qvel'], ctrl=[-1.9], qvel=[0.3], step=True)
+  return _cmp(env, XML['F12'], ['qvel'], ctrl=[-1.9], qvel=[0.3], step=True)
+
+
+XML['F13'] = ('<mujoco><option integrator="implicitfast"/><worldbody>' + HINGE % '' + '</worldbody>'
+              '<actuator><velocity joint="j" kv="5" forcelimited="true" forcerange="-1 1"/></actuator></mujoco>')
 
 
 def F13(env):
-  _cmp(env, 'F13 implicitfast: C skips the velocity derivative of an actuator clamped by forcerange, MJX does not',
-       '<mujoco><option integrator="implicitfast"/><worldbody>' + HINGE % '' + '</worldbody>'
-       '<actuator><velocity joint="j" kv="5" forcelimited="true" forcerange="-1 1"/></actuator></mujoco>',
-       ['qvel', 'actuator_force'], ctrl=[0.0], qvel=[2.0], step=True)
+  return _cmp(env, XML['F13'], ['qvel'], ctrl=[0.0], qvel=[2.0], step=True)
 
 
-def F14(env):
-  _cmp(env, 'F14 implicitfast, damped tendon across two kinematic trees: C qDeriv keeps tree-local entries only, MJX is dense',
-       '<mujoco><option integrator="implicitfast" gravity="0 0 0"/><worldbody><body><joint name="a" type="slide" axis="1 0 0"/><geom size=".1"/></body>'
-       '<body pos="0 1 0"><joint name="b" type="slide" axis="1 0 0"/><geom size=".1"/></body></worldbody>'
-       '<tendon><fixed damping="20"><joint joint="a" coef="1"/><joint joint="b" coef="-1"/></fixed></tendon></mujoco>',
-       ['qvel'], qvel=[1.0, -0.5], step=True)
+XML['F15'] = '<mujoco><worldbody>' + HINGE % ' frictionloss="0.1"' + '</worldbody><sensor><touch site="s"/></sensor></mujoco>'
 
 
 def F15(env):
-  _raises(env, 'F15 touch sensor + constraint rows + no contact slot',
-          '<mujoco><worldbody>' + HINGE % ' frictionloss="0.1"' + '</worldbody><sensor><touch site="s"/></sensor></mujoco>')
+  return _raises(env, XML['F15'])
+
+
+XML['F16'] = ('<mujoco><worldbody><body name="m" mocap="true" pos="0 0 1"><geom size=".05" contype="0" conaffinity="0"/>'
+              '<body name="c" pos=".2 0 0"><joint type="hinge" axis="0 1 0"/><geom size=".05" contype="0" conaffinity="0"/></body></body>'
+              '</worldbody></mujoco>')
 
 
 def F16(env):
-  _cmp(env, 'F16 body attached to a mocap body ignores mocap_pos in MJX kinematics',
-       '<mujoco><worldbody><body name="m" mocap="true" pos="0 0 1"><geom size=".05" contype="0" conaffinity="0"/>'
-       '<body name="c" pos=".2 0 0"><joint type="hinge" axis="0 1 0"/><geom size=".05" contype="0" conaffinity="0"/></body></body></worldbody></mujoco>',
-       ['xpos'], mocap_pos=[[0.5, 0.5, 2.0]])
+  return _cmp(env, XML['F16'], ['xpos'], mocap_pos=[[0.5, 0.5, 2.0]])
+
+
+XML['F17'] = ('<mujoco><option><flag actuation="disable"/></option><worldbody>' + HINGE % '' + '</worldbody>'
+              '<actuator><motor name="m" joint="j" gear="2"/></actuator><sensor><actuatorvel actuator="m"/></sensor></mujoco>')
 
 
 def F17(env):
-  _cmp(env, 'F17 actuation disabled: C zeroes actuator_velocity, MJX computes it (actuatorvel sensor differs)',
-       '<mujoco><option><flag actuation="disable"/></option><worldbody>' + HINGE % '' + '</worldbody><actuator><motor joint="j" gear="2"/></actuator>'
-       '<sensor><actuatorvel actuator="0"/></sensor></mujoco>'.replace('actuator="0"', 'actuator="m"').replace('<motor joint', '<motor name="m" joint'),
-       ['sensordata'], qvel=[1.5])
+  return _cmp(env, XML['F17'], ['sensordata'], qvel=[1.5])
 
 
-def F18(env):
-  mujoco, mjx, jax, jp, lib, gx = env
-  print('== F18 capsule-capsule: math.closest_segment_to_segment_points divides by (denom + 1e-6): pos/normal off by ~1e-6..1e-5')
-  xml = ('<mujoco><worldbody><geom type="capsule" size=".1 .11" pos="0 0 0" zaxis="2 -1 -1"/><body pos=".12 .05 .1"><joint type="free"/>'
-         '<geom type="capsule" size=".13 .03" zaxis="1 2 0.5"/></body></worldbody></mujoco>')
-  c = gx.build(lib, xml)
-  td = lib.make_data(c.tm)
-  lib.mj_forward(c.tm, td)
-  dx = jax.jit(mjx.forward)(c.mx, c.dx0)
-  print('   C engine: dist=%.15g pos=%s normal=%s' % (td.contact['dist'][0], td.contact['pos'][0], td.contact['frame'][0][:3]))
-  print('   MJX     : dist=%.15g pos=%s normal=%s' % (float(dx._impl.contact.dist[0]), np.asarray(dx._impl.contact.pos[0]),
-                                                     np.asarray(dx._impl.contact.frame[0][0])))
-
-
-def F19(env):
-  mujoco, mjx, jax, jp, lib, gx = env
-  print('== F19 get_data keeps contacts with dist <= 0 only: an active contact inside a positive margin is dropped')
-  xml = ('<mujoco><worldbody><geom type="plane" size="1 1 .1" margin="0.05"/><body pos="0 0 0.12"><joint type="free"/><geom size=".1"/></body>'
-         '</worldbody></mujoco>')
-  mm = mujoco.MjModel.from_xml_string(xml)
-  md = mujoco.MjData(mm)
-  mujoco.mj_forward(mm, md)
-  back = mjx.get_data(mm, mjx.put_data(mm, md))
-  print('   original  : ncon=%d dist=%s nefc=%d' % (md.ncon, md.contact.dist.tolist(), md.nefc))
-  print('   round trip: ncon=%d dist=%s nefc=%d' % (back.ncon, back.contact.dist.tolist(), back.nefc))
-
-
-def F20(env):
-  mujoco, mjx, jax, jp, lib, gx = env
-  print('== F20 (minor) solver.solve never writes solver_niter; nv=0 models raise ValueError in scan')
-  xml = '<mujoco><worldbody><geom type="plane" size="1 1 .1"/><body pos="0 0 0.05"><joint type="free"/><geom size=".1"/></body></worldbody></mujoco>'
-  mm = mujoco.MjModel.from_xml_string(xml)
-  dx = jax.jit(mjx.forward)(mjx.put_model(mm), mjx.make_data(mm))
-  md = mujoco.MjData(mm)
-  mujoco.mj_forward(mm, md)
-  print('   solver_niter MJX=%s  C(wheel)=%s' % (np.asarray(dx._impl.solver_niter), md.solver_niter[:1]))
-  _raises(env, 'nv=0', '<mujoco><worldbody><geom size=".1"/></worldbody></mujoco>')
+XML['F23'] = ('<mujoco><worldbody><geom type="plane" size="1 1 .1"/><body mocap="true" pos="0 0 0.05"><geom type="capsule" size=".06 .1" '
+              'euler="90 0 0"/></body><body pos="1 0 1"><joint type="hinge"/><geom size=".1"/></body></worldbody></mujoco>')
 
 
 def F23(env):
+  """deviates if MJX has an active contact (dist < includemargin) for a geom pair for which the C engine has none."""
   mujoco, mjx, jax, jp, lib, gx = env
-  print('== F23 C skips collisions between two dof-less bodies (world geom vs mocap-body geom); MJX emits the contact; its rows have R=mjMINVAL (D=1e15) and can stall the MJX solver')
-  xml = ('<mujoco><worldbody><geom type="plane" size="1 1 .1"/><body mocap="true" pos="0 0 0.05"><geom type="capsule" size=".06 .1" euler="90 0 0"/></body>'
-         '<body pos="1 0 1"><joint type="hinge"/><geom size=".1"/></body></worldbody></mujoco>')
-  c = gx.build(lib, xml)
+  c = gx.build(lib, XML['F23'])
   td = lib.make_data(c.tm)
   lib.mj_forward(c.tm, td)
   dx = jax.jit(mjx.forward)(c.mx, c.dx0)
   cx = dx._impl.contact
-  print('   C engine ncon=%d ; MJX active contacts=%d dist=%s' % (int(td.ncon), int(np.sum(np.asarray(cx.dist) < np.asarray(cx.includemargin))),
-                                                              np.asarray(cx.dist)))
+  act = np.flatnonzero(np.asarray(cx.dist) < np.asarray(cx.includemargin))
+  D = np.asarray(dx._impl.efc_D)
+  return (len(act) > int(td.ncon),
+          'plane vs capsule of a mocap body (both dof-less): C engine ncon=%d nefc=%d; MJX active contacts=%d geoms=%s dist=%s, max efc_D=%.3g' % (
+              int(td.ncon), int(td.nefc), len(act), np.asarray(cx.geom)[act].tolist(), np.asarray(cx.dist)[act].tolist(), float(D.max()) if D.size else 0))
+
+
+XML['F26'] = ('<mujoco><option><flag actuation="disable"/></option><worldbody><body><joint name="j" type="hinge"/><geom size=".1" pos=".2 0 0"/>'
+              '</body></worldbody><actuator><general joint="j" dyntype="filter" dynprm="0.5" actlimited="true" actrange="-0.5 1"/></actuator></mujoco>')
+
+
+def F26(env):
+  return _cmp(env, XML['F26'], ['act'], act=[-0.8], step=True)
+
+
+XML['F29'] = ('<mujoco><option gravity="0 0 0"/><worldbody><site name="w" pos="-0.4 -0.3 -0.4"/><body pos="0 0 0.1"><joint type="free"/>'
+              '<geom size=".05" mass="1.7"/><body pos=".12 .1 -.23"><joint type="ball"/><geom type="capsule" size=".05 .1" mass="3"/>'
+              '<site name="s" pos=".07 .19 -.07"/></body></body></worldbody>'
+              '<tendon><spatial armature="0.08"><site site="s"/><site site="w"/></spatial></tendon></mujoco>')
 
 
 def F29(env):
+  """deviates if the armature part of qfrc_bias (with armature minus without) differs between MJX and the C engine; the
+  detail also gives the finite-difference reference armature * J^T * (d/dt J) v."""
   mujoco, mjx, jax, jp, lib, gx = env
-  from checks import c43
-  print('== F29 spatial tendon with armature: qfrc_bias term armature*J^T*(Jdot v) of MJX differs from the C engine and from finite differences')
-  xml = ('<mujoco><option gravity="0 0 0"/><worldbody><site name="w" pos="-0.4 -0.3 -0.4"/><body pos="0 0 0.1"><joint type="free"/>'
-         '<geom size=".05" mass="1.7"/><body pos=".12 .1 -.23"><joint type="ball"/><geom type="capsule" size=".05 .1" mass="3"/>'
-         '<site name="s" pos=".07 .19 -.07"/></body></body></worldbody>'
-         '<tendon><spatial armature="0.08"><site site="s"/><site site="w"/></spatial></tendon></mujoco>')
-  c = gx.build(lib, xml)
+  c = gx.build(lib, XML['F29'])
   tm = c.tm
-  rng = np.random.RandomState(3)
-  qvel = rng.uniform(-1, 1, tm.nv)
+  qvel = np.random.RandomState(3).uniform(-1, 1, tm.nv)
   d = lib.make_data(tm)
   d.qvel[:] = qvel
   lib.mj_forward(tm, d)
@@ -247,43 +237,243 @@ def F29(env):
   d0 = lib.make_data(tm0)
   d0.qvel[:] = qvel
   lib.mj_forward(tm0, d0)
+
   def ten_j(q):
     dd = lib.make_data(tm)
     dd.qpos[:] = q
     lib.mj_forward(tm, dd)
-    return c43.c_dense(lib, tm, dd, 'ten_J')[0].copy()
+    out = np.zeros((1, tm.nv))
+    lib.mju_sparse2dense(out, np.ascontiguousarray(dd.ten_J).ravel(), 1, tm.nv, np.ascontiguousarray(tm.ten_J_rownnz),
+                         np.ascontiguousarray(tm.ten_J_rowadr), np.ascontiguousarray(tm.ten_J_colind))
+    return out[0].copy()
   qp, qm = np.array(d.qpos), np.array(d.qpos)
   lib.mj_integratePos(tm, qp, qvel, 1e-6)
   lib.mj_integratePos(tm, qm, qvel, -1e-6)
-  jdv = ((ten_j(qp) - ten_j(qm)) / 2e-6) @ qvel
-  print('   C engine  :', np.array(d.qfrc_bias) - np.array(d0.qfrc_bias))
-  print('   MJX       :', np.asarray(dx.qfrc_bias) - np.array(d0.qfrc_bias))
-  print('   reference :', 0.08 * ten_j(np.array(d.qpos)) * jdv, '(armature * J^T * FD(Jdot v))')
+  ref = 0.08 * ten_j(np.array(d.qpos)) * (((ten_j(qp) - ten_j(qm)) / 2e-6) @ qvel)
+  bc = np.array(d.qfrc_bias) - np.array(d0.qfrc_bias)
+  bx = np.asarray(dx.qfrc_bias) - np.array(d0.qfrc_bias)
+  e = _rel(bc, bx)
+  return e > RTOL, 'armature term of qfrc_bias: C engine %s, MJX %s (rel diff %.3g); finite-difference reference %s' % (
+      _fmt(bc), _fmt(bx), e, _fmt(ref))
 
 
-def F25(env):
+# ------------------------------------------------------------------ C44 (io.py; reference = the MjData / MjModel given to MJX)
+
+XML['F8'] = ('<mujoco><worldbody><geom type="plane" size="1 1 .1"/><body pos="0 0 1"><joint type="free"/><geom size=".1"/></body>'
+             '</worldbody></mujoco>')
+
+
+def F8(env):
+  """deviates if get_data(make_data(m)).ncon != MjData(m).ncon (= 0)."""
   mujoco, mjx, jax, jp, lib, gx = env
-  print('== F25 get_data corrupts ten_J when a structural entry is exactly zero (dense2sparse drops it, the pattern is static)')
-  xml = ('<mujoco><worldbody><body pos="0 0 1"><joint type="free"/><geom size=".1"/><site name="a"/></body>'
-         '<body pos="1 0 1"><joint type="free"/><geom size=".1"/><site name="b" pos=".1 .1 0"/></body></worldbody>'
-         '<tendon><spatial><site site="a"/><site site="b"/></spatial></tendon></mujoco>')
-  mm = mujoco.MjModel.from_xml_string(xml)
+  mm = mujoco.MjModel.from_xml_string(XML['F8'])
+  fresh = mjx.get_data(mm, mjx.make_data(mm))
+  ref = mujoco.MjData(mm)
+  return int(fresh.ncon) != int(ref.ncon), 'get_data(m, make_data(m)).ncon=%d with contact.geom=%s dist=%s; MjData(m).ncon=%d' % (
+      fresh.ncon, fresh.contact.geom.tolist(), fresh.contact.dist.tolist(), ref.ncon)
+
+
+XML['F9'] = ('<mujoco><worldbody><body pos="0 0 1"><joint name="j" type="hinge" range="-30 30" limited="true"/><geom size=".1"/></body>'
+             '<body pos="1 0 1"><joint name="k" type="slide" range="-1 1" limited="true"/><geom size=".1"/></body></worldbody>'
+             '<equality><joint joint1="j" joint2="k" active="false"/></equality></mujoco>')
+
+
+def F9(env):
+  """deviates if ne/nf/nl of get_data(put_data(d)) differ from d."""
+  mujoco, mjx, jax, jp, lib, gx = env
+  mm = mujoco.MjModel.from_xml_string(XML['F9'])
+  md = mujoco.MjData(mm)
+  md.qpos[0] = 1.0
+  mujoco.mj_forward(mm, md)
+  back = mjx.get_data(mm, mjx.put_data(mm, md))
+  a = (int(md.ne), int(md.nf), int(md.nl), int(md.nefc))
+  b = (int(back.ne), int(back.nf), int(back.nl), int(back.nefc))
+  return a[:3] != b[:3], 'hinge beyond its limit, inactive joint equality: original (ne,nf,nl,nefc)=%s, after get_data(put_data(d)) %s' % (a, b)
+
+
+XML['F19'] = ('<mujoco><worldbody><geom type="plane" size="1 1 .1" margin="0.05"/><body pos="0 0 0.12"><joint type="free"/><geom size=".1"/>'
+              '</body></worldbody></mujoco>')
+
+
+def F19(env):
+  """deviates if ncon changes in the round trip."""
+  mujoco, mjx, jax, jp, lib, gx = env
+  mm = mujoco.MjModel.from_xml_string(XML['F19'])
   md = mujoco.MjData(mm)
   mujoco.mj_forward(mm, md)
   back = mjx.get_data(mm, mjx.put_data(mm, md))
-  print('   colind    :', mm.ten_J_colind)
-  print('   original  :', md.ten_J)
-  print('   round trip:', back.ten_J)
+  return int(back.ncon) != int(md.ncon), 'sphere 0.02 above a plane with margin 0.05: original ncon=%d dist=%s nefc=%d; round trip ncon=%d nefc=%d' % (
+      md.ncon, md.contact.dist.tolist(), md.nefc, back.ncon, back.nefc)
 
 
-ALL = [F1, F2, F3, F4, F5, F9, F10, F11, F12, F13, F14, F15, F16, F17, F18, F19, F20, F23, F25, F29]
+XML['F20'] = '<mujoco><worldbody><geom type="plane" size="1 1 .1"/><body pos="0 0 0.05"><joint type="free"/><geom size=".1"/></body></worldbody></mujoco>'
+
+
+def F20(env):
+  """deviates if solver_niter returned by get_data(mjx.forward(...)) is 0 while the C solver ran >= 1 iteration."""
+  mujoco, mjx, jax, jp, lib, gx = env
+  mm = mujoco.MjModel.from_xml_string(XML['F20'])
+  dx = jax.jit(mjx.forward)(mjx.put_model(mm), mjx.make_data(mm))
+  back = mjx.get_data(mm, dx)
+  md = mujoco.MjData(mm)
+  mujoco.mj_forward(mm, md)
+  return int(back.solver_niter[0]) == 0 and int(md.solver_niter[0]) > 0 and int(md.nefc) > 0, (
+      'penetrating sphere on a plane (nefc=%d): solver_niter after get_data(mjx.forward)=%d, mj_forward=%d' % (
+          md.nefc, int(back.solver_niter[0]), int(md.solver_niter[0])))
+
+
+XML['F22'] = ('<mujoco><worldbody><body name="a" pos="0 0 1"><joint type="hinge" axis="0 1 0"/><geom size=".1" pos=".2 0 0"/></body></worldbody>'
+              '<equality><connect body1="a" anchor=".3 0 0"/></equality></mujoco>')
+
+
+def F22(env):
+  """deviates if nefc changes in the round trip."""
+  mujoco, mjx, jax, jp, lib, gx = env
+  mm = mujoco.MjModel.from_xml_string(XML['F22'])
+  md = mujoco.MjData(mm)
+  md.qpos[:] = 0.3
+  md.qvel[:] = 0.5
+  mujoco.mj_forward(mm, md)
+  back = mjx.get_data(mm, mjx.put_data(mm, md))
+  J = md.efc_J.reshape(-1, mm.nv)[:md.nefc]
+  return int(back.nefc) != int(md.nefc), ('connect on a y-axis hinge (the y row of the Jacobian is exactly 0): original nefc=%d efc_J=%s efc_pos=%s; '
+                                          'round trip nefc=%d efc_pos=%s' % (md.nefc, J.ravel().tolist(), md.efc_pos.tolist(), back.nefc,
+                                                                             back.efc_pos.tolist()))
+
+
+XML['F25'] = ('<mujoco><worldbody><body pos="0 0 1"><joint type="free"/><geom size=".1"/><site name="a"/></body>'
+              '<body pos="1 0 1"><joint type="free"/><geom size=".1"/><site name="b" pos=".1 .1 0"/></body></worldbody>'
+              '<tendon><spatial><site site="a"/><site site="b"/></spatial></tendon></mujoco>')
+
+
+def F25(env):
+  """deviates if ten_J of the round trip is not bit-identical."""
+  mujoco, mjx, jax, jp, lib, gx = env
+  mm = mujoco.MjModel.from_xml_string(XML['F25'])
+  md = mujoco.MjData(mm)
+  mujoco.mj_forward(mm, md)
+  back = mjx.get_data(mm, mjx.put_data(mm, md))
+  return not np.array_equal(md.ten_J, back.ten_J), 'spatial tendon between two free bodies, site a at the body origin: ten_J original %s, round trip %s (colind %s)' % (
+      np.round(md.ten_J, 6).tolist(), np.round(back.ten_J, 6).tolist(), mm.ten_J_colind.tolist())
+
+
+# ------------------------------------------------------------------ C45
+
+XML['F10'] = ('<mujoco><option cone="elliptic" iterations="1" ls_iterations="4"/><worldbody><geom type="plane" size="5 5 .1" pos="0 0 -4"/>'
+              '<body pos="0 0 .5"><joint type="hinge" axis="0 1 0"/><geom size=".1" pos=".2 0 0"/></body></worldbody></mujoco>')
+
+
+def F10(env):
+  """deviates if jacfwd or jacrev of qvel' = step(qvel) is non-finite while the value is finite."""
+  mujoco, mjx, jax, jp, lib, gx = env
+  mm = mujoco.MjModel.from_xml_string(XML['F10'])
+  mx, dx = mjx.put_model(mm), mjx.make_data(mm)
+  f = lambda qvel: mjx.step(mx, dx.replace(qvel=qvel)).qvel
+  x = jp.ones(1) * .3
+  v, jf, jr = np.asarray(f(x)), np.asarray(jax.jacfwd(f)(x)).ravel(), np.asarray(jax.jacrev(f)(x)).ravel()
+  dev = bool(np.all(np.isfinite(v)) and not (np.all(np.isfinite(jf)) and np.all(np.isfinite(jr))))
+  return dev, 'cone=elliptic, sphere 4.4 above a plane (contact slot inactive): step(qvel=0.3).qvel=%s, jacfwd=%s, jacrev=%s' % (v, jf, jr)
+
+
+# ------------------------------------------------------------------ C engine side (not attached to a property)
+
+XML['F14'] = ('<mujoco><option integrator="implicitfast" gravity="0 0 0"/><worldbody><body><joint name="a" type="slide" axis="1 0 0"/>'
+              '<geom size=".1"/></body><body pos="0 1 0"><joint name="b" type="slide" axis="1 0 0"/><geom size=".1"/></body></worldbody>'
+              '<tendon><fixed damping="20"><joint joint="a" coef="1"/><joint joint="b" coef="-1"/></fixed></tendon></mujoco>')
+XML['F21'] = XML['F14'].replace(' integrator="implicitfast"', '').replace('<fixed damping="20">', '<fixed armature="0.5">')
+
+
+def F14(env):
+  return _cmp(env, XML['F14'], ['qvel'], qvel=[1.0, -0.5], step=True)
+
+
+def F21(env):
+  """dense M of the C engine (mj_fullM) vs MJX dense M: the off-diagonal armature*J'J entry coupling the two trees."""
+  mujoco, mjx, jax, jp, lib, gx = env
+  c = gx.build(lib, XML['F21'])
+  td = lib.make_data(c.tm)
+  lib.mj_forward(c.tm, td)
+  dx = jax.jit(mjx.forward)(c.mx, c.dx0)
+  Mc, Mx = lib.fullM(c.tm, td), np.asarray(dx._impl.M)
+  return _rel(Mc, Mx) > RTOL, 'M: C engine %s, MJX %s' % (Mc.ravel().tolist(), Mx.ravel().tolist())
+
+
+# name -> (property, fingerprint, what)   ('what' is the text registered in known_findings.json)
+PROBES = {
+    'F1': ('C43', 'mjx-F1-connect-weld-no-jdotv', "mjx/_src/constraint.py make_constraint: efc_aref of connect/weld rows lacks the Jdot*v term that "
+           "mj_referenceConstraint->mj_Jdotv subtracts; free body + <connect> with qvel=(.3,.2,.1,2,1,-1.5): efc_aref (-30.60,25.72,21.95) in C vs "
+           "(-31.58,26.32,21.05) in MJX, qacc differs"),
+    'F2': ('C43', 'mjx-F2-elliptic-no-frictional-slot-typeerror', "mjx/_src/solver.py _update_constraint: cone=elliptic with constraint rows but no contact "
+           "slot of condim>1 (one limited hinge, no contacts) indexes with jp.array([]) (float64) -> TypeError from mjx.forward"),
+    'F3': ('C43', 'mjx-F3-sensor-acc-skipped-without-constraints', "mjx/_src/forward.py forward(): returns before sensor.sensor_acc when efc_J.size==0; "
+           "hinge + accelerometer/framelinacc, no constraints: sensordata stays 0 (C: -0.3,0,0.417,...)"),
+    'F4': ('C43', 'mjx-F4-spring-or-damper-flag-zeroes-passive', "mjx/_src/passive.py passive(): 'disableflags & (SPRING | DAMPER)' returns zero passive "
+           "force when only one of the two flags is set; hinge damping=2 stiffness=3 with spring disabled: qfrc_passive -2 in C, 0 in MJX"),
+    'F5': ('C43', 'mjx-F5-actearly-ignored', "mjx/_src/forward.py fwd_actuation: actuator_actearly is never read (put_model accepts it); integrator actuator "
+           "gainprm=2 actearly=true ctrl=1 act=.5: actuator_force 1.004 in C, 1.0 in MJX"),
+    'F11': ('C43', 'mjx-F11-implicitfast-free-body-gyroscopic', "mjx/_src/forward.py implicit(): no gyroscopic derivative block for standalone free bodies "
+            "(C: mjd_freeMhat local LU solve); spinning free box, implicitfast: next qvel differs at 1e-5 relative"),
+    'F12': ('C43', 'mjx-F12-implicitfast-unclamped-ctrl-derivative-nan', "mjx/_src/derivative.py deriv_smooth_vel: velocity gain multiplied by the unclamped "
+            "d.ctrl; <damper kv=1.7 ctrlrange='0 1.4'> with ctrl=-1.9 on a light hinge: M-h*qDeriv indefinite, mjx.step returns qvel=NaN (C: 0.3)"),
+    'F13': ('C43', 'mjx-F13-implicitfast-clamped-actuator-derivative', "mjx/_src/derivative.py deriv_smooth_vel: actuators clamped by forcerange are not "
+            "skipped (C mjd_actuator_vel skips them); <velocity kv=5 forcerange='-1 1'> qvel=2: next qvel 2.05754 in C, 2.05611 in MJX"),
+    'F15': ('C43', 'mjx-F15-touch-sensor-no-contact-slot-valueerror', "mjx/_src/sensor.py sensor_acc: touch sensor in a model with constraint rows "
+            "(frictionloss) but no contact slot -> ValueError 'Need at least one array to concatenate' from mjx.forward"),
+    'F16': ('C43', 'mjx-F16-child-of-mocap-ignores-mocap-pose', "mjx/_src/smooth.py kinematics(): mocap pose is written after the body-tree scan, so a body "
+            "attached to a mocap body is placed relative to the model pose; mocap_pos=(.5,.5,2), child offset .2: child xpos (.7,.5,2) in C, (.2,0,1) in MJX"),
+    'F17': ('C43', 'mjx-F17-actuator-velocity-with-actuation-disabled', "mjx/_src/forward.py fwd_velocity: actuator_velocity computed although actuation is "
+            "disabled (C mj_fwdVelocity zeroes it); actuatorvel sensor, gear 2, qvel 1.5: 0 in C, 3 in MJX"),
+    'F23': ('C43', 'mjx-F23-contacts-between-dofless-bodies', "mjx/_src/collision_driver.py geom_pairs: no 'both bodies dof-less' filter (C filterBodyPair); "
+            "plane vs capsule of a mocap body: 0 contacts in C, 2 active contacts in MJX whose rows have R=mjMINVAL, D=1e15 (same for connect/weld on "
+            "a mocap body) and cost the MJX solver its precision"),
+    'F26': ('C43', 'mjx-F26-act-clamped-with-actuation-disabled', "mjx/_src/forward.py _next_activation: act is clamped to actrange although actuation is "
+            "disabled (C mj_advance leaves act untouched); act=-0.8, actrange -0.5..1: next act -0.8 in C, -0.5 in MJX"),
+    'F29': ('C43', 'mjx-F29-spatial-tendon-armature-bias', "mjx/_src/smooth.py tendon_dot/tendon_bias: qfrc_bias term armature*J^T*(Jdot v) of a spatial "
+            "tendon is wrong; free body + ball child, <spatial armature=.08> to a world site: C engine equals the finite-difference reference "
+            "(0.0252,...), MJX gives (0.00278,...)"),
+    'F8': ('C44', 'mjx-F8-get-data-of-make-data-phantom-contacts', "mjx/_src/io.py _get_data_into: ncon=(contact.dist<=0).sum() counts the dist=0 placeholder "
+           "slots of make_data; get_data(m, make_data(m)).ncon=1 with geom (-1,-1) for plane+free sphere, MjData(m).ncon=0"),
+    'F9': ('C44', 'mjx-F9-get-data-static-ne-nf-nl', "mjx/_src/io.py _get_data_into: ne/nf/nl are copied from the static MJX slot counts while nefc and the efc "
+           "arrays are compacted; hinge beyond limit + inactive joint equality: (ne,nf,nl,nefc)=(0,0,1,1) becomes (1,0,2,1)"),
+    'F19': ('C44', 'mjx-F19-get-data-drops-contacts-inside-margin', "mjx/_src/io.py _get_contact: keeps contacts with dist<=0 only; sphere 0.02 above a plane "
+            "with margin 0.05: ncon 1 -> 0 in get_data(put_data(d)) while nefc stays 4"),
+    'F20': ('C44', 'mjx-F20-solver-niter-never-written', "mjx/_src/solver.py solve(): solver_niter of the returned Data is never updated; penetrating sphere on "
+            "plane: get_data(mjx.forward).solver_niter[0]=0, mj_forward >= 1"),
+    'F22': ('C44', 'mjx-F22-get-data-drops-zero-jacobian-rows', "mjx/_src/io.py _get_data_into: efc_active=(efc_J!=0).any(axis=1) drops genuine rows whose "
+            "Jacobian is exactly zero; <connect> on a y-axis hinge: nefc 3 -> 2 in get_data(put_data(d))"),
+    'F25': ('C44', 'mjx-F25-get-data-ten-j-structural-zero', "mjx/_src/io.py _get_data_into: ten_J packed with mju_dense2sparse (drops exact zeros) although "
+            "MjData.ten_J follows the static m.ten_J_colind; spatial tendon between two free bodies with a site at the body origin: values shifted"),
+    'F10': ('C45', 'mjx-F10-elliptic-cone-nan-gradients', "mjx/_src/solver.py (elliptic cone paths): jacfwd/jacrev of mjx.step are NaN as soon as the model "
+            "has a contact slot, even inactive; cone=elliptic, hinge with sphere 4.4 above a plane: value finite, d qvel'/d qvel = NaN"),
+}
+BY_PROPERTY = {p: [n for n, v in PROBES.items() if v[0] == p] for p in ('C43', 'C44', 'C45')}
+
+
+def run_probes(ck, names, env=None):
+  """Run the named probes and report the deviating ones through ck.violation with their fingerprint."""
+  env = env or setup()
+  for n in names:
+    prop, fp, what = PROBES[n]
+    try:
+      dev, detail = globals()[n](env)
+    except Exception as e:            # a probe that cannot run is a harness problem of the probe, not a verdict
+      ck.discard('probe-%s-error:%s' % (n, type(e).__name__))
+      print('probe %s failed to run: %s' % (n, traceback.format_exc()[-600:]), flush=True)
+      continue
+    ck.label('probe:%s:%s' % (n, 'deviates' if dev else 'agrees'))
+    if dev:
+      ck.violation('%s: %s' % (n, detail), dict(probe=n, xml=XML.get(n), detail=detail), bucket='known:mjx-' + n, fingerprint=fp)
+
 
 if __name__ == '__main__':
-  env = _setup()
+  np.set_printoptions(precision=9, linewidth=160)
+  env = setup()
   want = set(sys.argv[1:])
-  for f in ALL:
-    if not want or f.__name__ in want:
-      try:
-        f(env)
-      except Exception:
-        traceback.print_exc()
+  for n in list(PROBES) + ['F14', 'F21']:
+    if want and n not in want:
+      continue
+    try:
+      dev, detail = globals()[n](env)
+      print('== %s %s\n   %s' % (n, 'DEVIATES' if dev else 'agrees', detail), flush=True)
+    except Exception:
+      traceback.print_exc()
